@@ -512,7 +512,7 @@ pub fn assumptions_common() -> Vec<String> {
 pub fn check(ctx: &mut Ctx) -> Option<Meta> {
     let thorough = ctx.tier == "thorough";
     #[cfg(orx_concurrent_iter_verif)]
-    if matches!(ctx.prop.as_str(), "C07" | "C08" | "C10" | "C13" | "C15") {
+    if matches!(ctx.prop.as_str(), "C07" | "C08" | "C10" | "C13" | "C15" | "C16") {
         // second half of a two-binary property: the schedule-engine campaigns
         return crate::props_sched::check(ctx);
     }
